@@ -173,8 +173,9 @@ where
         .seek(std::io::SeekFrom::Start(array.offset as u64))
         .map_err(M2Error::Io)?;
 
-    // Read each element
-    let mut result = Vec::with_capacity(array.count as usize);
+    // Read each element. The count comes straight from the file, so it only
+    // bounds the pre-allocation; a truncated file ends the loop with an error.
+    let mut result = Vec::with_capacity((array.count as usize).min(4096));
     for _ in 0..array.count {
         result.push(parse_fn(reader)?);
     }
@@ -197,10 +198,20 @@ pub fn read_raw_bytes<R: Read + Seek>(
         .seek(std::io::SeekFrom::Start(array.offset as u64))
         .map_err(M2Error::Io)?;
 
-    // Read raw bytes
-    let total_bytes = array.count as usize * element_size;
-    let mut data = vec![0u8; total_bytes];
-    reader.read_exact(&mut data).map_err(M2Error::Io)?;
+    // Read raw bytes. The size comes straight from the file: read through a
+    // length-limited adapter instead of allocating it up front.
+    let total_bytes = (array.count as u64).saturating_mul(element_size as u64);
+    let mut data = Vec::new();
+    reader
+        .by_ref()
+        .take(total_bytes)
+        .read_to_end(&mut data)
+        .map_err(M2Error::Io)?;
+    if data.len() as u64 != total_bytes {
+        return Err(M2Error::Io(std::io::Error::from(
+            std::io::ErrorKind::UnexpectedEof,
+        )));
+    }
 
     Ok(data)
 }
